@@ -113,6 +113,16 @@ CHECKS["C20"] = _e("model_checking",
     "DESIGN.md 6/C20; notes/C20.md",
     "Trusted: TLC, the in-memory S3's fidelity (strong consistency, MD5 ETags, conditional PUT semantics). exists() on a bare directory name is outside the compared contract.",
     "TLA+ storage/range/retry specs model-checked by TLC; TLC-exported sequences replayed against both real backends (in-memory S3)")
+CHECKS["C08"] = _e("model_checking",
+    "DataShard.tla with a CAS backend under a lock that grants everyone and under a lease lock (takeover once the lease lapsed while the old holder is paused and still believes it holds it; heartbeats; the non-atomic release as a named deviation); a pointer write delayed in flight = the writer paused immediately before the conditional PUT. TLC explores all interleavings of 2-3 committers with clock ticks at every point checking Serializable, AckedOnce, FlipReplacesValidated, LostLockNeverAcks; companions that must fail: the CAS keyed to an unvalidated second pointer read, and the grant-all lock without CAS. Binding: the real MetadataManager.commit and S3LockProvider on an in-memory S3 (content-hash ETags, conditional PUT semantics) under the baton scheduler: every single-pause schedule, a lease lapse inserted at every scheduling point, seeded multi-pause schedules with heartbeats; the trace records which pointer read the If-Match of the conditional PUT came from and TLC requires it to be the validated one.",
+    "DESIGN.md 6/C08",
+    "Trusted: as C01 plus the in-memory S3's fidelity (strong consistency, MD5 ETags, AWS conditional-PUT semantics). The lease lock is abstracted to holder + last-renewal time here (request-level protocol: C19).",
+    "TLA+ protocol spec (CAS backend, grant-all and lease locks) model-checked by TLC; trace validation of real scheduled executions on an in-memory S3")
+CHECKS["C12"] = _e("model_checking",
+    "FilterSel.tla (on Filter.tla's three-valued reference semantics): transcriptions of the filter parser (every operator spelling, malformed shapes), of the compute-expression builder as a three-valued evaluator, and of every read program (scan verify on/off, parallel, scan_batches, iter_records) incl. where parsing/building happens relative to early returns; TLC proves EngineMatchesReference, ParserConforms, ApiConforms over table layouts (1-3 files, NULL, NaN, empty files, empty table) x filters (conjunctions, between, empty/NULL-containing sets, null operators, malformed classes) x projections and exports the cases; pre-repair variants (statistics pushdown in the non-verifying scan; validation after early returns) must fail. Every exported case is concretised for all column types and run through every read API and option; all must equal the reference multiset and each other; malformed filters must raise in every API.",
+    "DESIGN.md 6/C12; notes/C12.md",
+    "Trusted: TLC, pyarrow's compute kernels as execution platform (mirrored in the spec, re-checked by the binding). For NaN rows IEEE semantics are the reference. pandas APIs not exercised.",
+    "TLA+ filter semantics + API read programs model-checked by TLC; TLC-exported cases replayed through every scan API and option")
 
 NOT_YET: dict = {}
 
